@@ -1,6 +1,13 @@
 """C20 — the v3 transaction protocol keeps its specified order and consistency (DESIGN.md section 6, C20)."""
 import os
+import driver
 from props import proto
+
+V3S = {'pkg/store/v3/configuration/zz_verif_v3store.go': 'c20s/zz_verif_v3store.go',
+       'pkg/store/v3/configuration/zz_verif_v3client.go': 'c20s/zz_verif_v3client_sym.go|c20s/zz_verif_v3client_native.go'}
+PV3 = '*github.com/onosproject/onos-api/go/onos/config/v3.PathValue'
+STORE_CUTS = {'(*github.com/atomix/go-sdk/pkg/primitive/map.mapBuilder[string, %s]).Get[string %s]' % (PV3, PV3): 'atomix-map-by-name',
+              'github.com/atomix/go-sdk/pkg/types.Proto[%s]' % PV3: 'noop'}
 
 ASSUMPTIONS = [
     'stores: flat harness stores implementing the contract of pkg/store/v3 (Get/UpdateStatus, NotFound); version conflicts cannot occur '
@@ -19,6 +26,15 @@ ASSUMPTIONS = [
 
 def run(ctx):
     quick = ctx.tier == 'quick'
+    # (a) the v3 configuration store: what the controller writes is what a later Get returns
+    H = driver.Harness
+    hs = [H('VerifC20Store', 'pkg/store/v3/configuration', V3S, unwind=10, opts={'params': {'rounds': n}, 'cuts': STORE_CUTS})
+          for n in ([1, 2] if quick else [1, 2, 3])]
+    if not os.environ.get('C20_DEBUG'):
+        driver.check_harnesses(ctx, hs)
+    if ctx.only:
+        driver.write_evidence(ctx, 'model_checking', 'partial run', {}, [])
+        return
     d = 16 if quick else 24
     cfg = dict(family='v3', nt=1, nx=2, rollback=True, faults=False, crash=False)
     bad = ['bad:c20-consistency-committed-values', 'bad:c20-consistency-applied-values', 'bad:c20-consistency-device-values',
